@@ -49,7 +49,12 @@ let session p toks =
           | Some st' -> st := st'; (if t.[0] = 'f' then start := !start - total else fin := !fin + total); "0"
           | None -> failed := true; "FAIL"
         end
-        else if t = "r" then (st := reset p !st; start := 0; fin := 0; "r")
+        else if t = "r" || (n >= 2 && t.[0] = 'r' && t.[1] = ':') then begin
+          (* r:<k> = reset keeping k spare pages (the implementation's observed pool policy); bare r keeps all *)
+          let keep = if t = "r" then 1000000 else int_of_string (String.sub t 2 (n - 2)) in
+          st := reset p (nat_of_int (min keep (List.length !st.pages + List.length !st.spare))) !st; start := 0; fin := 0;
+          "r" ^ string_of_int (List.length !st.spare)
+        end
         else if n >= 2 && t.[0] = 'y' && t.[1] = ':' then begin
           let i = int_of_string (String.sub t 2 (n - 2)) in
           match recycle !st (nat_of_int (List.length !st.pages + i)) with
